@@ -689,7 +689,9 @@ pub fn run_c07(a: &Args, shared: &SharedReport) {
                 if idx % a.nshards != a.shard {
                     continue;
                 }
-                let s = mk_state(&net, &tc_small()[0], (0, 0), (true, true));
+                // timers and a pending random choice are set so that sends caused by Timeout / SelectRandom steps
+                // (re-sends with no delivery in between) meet every network content too
+                let s = mk_state(&net, &tc_small()[1], (0, 0), (true, true));
                 let real_s = to_real(&s);
                 let probe = build_sys(&cfg, vec![Tab::default(), Tab::default()], &RNet::empty(kind));
                 let acts = real_actions(&probe, &real_s);
@@ -698,7 +700,7 @@ pub fn run_c07(a: &Args, shared: &SharedReport) {
                 r.states += 1;
                 compare_actions("e3:c07", &cfg, &s, &acts, &mut r, &rv);
                 for act in RefSys::enabled(&cfg, &s) {
-                    let outs: Vec<&Output> = if matches!(act, RAct::Deliver(..)) { sends.iter().collect() } else { vec![&sends[0]] };
+                    let outs: Vec<&Output> = if matches!(act, RAct::Drop(..) | RAct::Crash(..)) { vec![&sends[0]] } else { sends.iter().collect() };
                     for out in outs {
                         r.evaluations += 1;
                         r.transitions += 1;
